@@ -40,7 +40,8 @@ def same(a, b) -> bool:
     return type(a) is type(b) and a == b
 
 
-def bfs(build, alphabet, check_transition, check_state, max_depth):
+def bfs(build, alphabet, check_transition, check_state, max_depth, canon=None):
+    canon = canon or globals()["canon"]
     """build(history) -> (obj, observations list); returns counters and violations.
 
     check_transition(history, op) and check_state(history) return lists of violations.
